@@ -69,10 +69,13 @@ def check_compressed_layout(out, case, produced):
 def check_case(case):
     out = Outcome()
     feats = set(case.features)
-    use_text = int(case.key()[:2], 16) % 2 == 0
+    form = int(case.key()[:2], 16) % 5     # 0, 1: JSON text; 2, 3: Python object with text strings; 4: Python object whose
+    use_text = form < 2                     # character values are byte strings, as the decoder and subset() hand them out
     unpad = int(case.key()[2:4], 16) % 2 == 0
-    flat = encutil.flat_json_of_case(case, unpad=unpad)
+    flat = encutil.flat_json_of_case(case, unpad=unpad, as_str=form != 4)
     feats.add('input_json_text' if use_text else 'input_python_object')
+    if form == 4 and any(f.kind == 'str' for w in case.decoded.subsets for f in w.fields):
+        feats.add('input_character_values_as_bytes')
     if case.compressed:
         cols = case.decoded.subsets[0].fields
         for f in cols:
@@ -124,7 +127,7 @@ def run(tier, seed):
                        'statement is demanded (the encoder may choose any legal difference width)']
     rep.required_classes = ['compressed', 'uncompressed', 'edition2', 'edition3', 'edition4', '201', '203_applied', '205',
                             '207', '208', 'column_missing_next_to_equal', 'column_all_missing', 'input_json_text',
-                            'input_python_object', 'section2', '204', '206', '221_skipped', '222_qa', '224255', '225255']
+                            'input_python_object', 'input_character_values_as_bytes', 'section2', '204', '206', '221_skipped', '222_qa', '224255', '225255']
     std.replay_files(rep, PID, check_case, gmsg.Case.from_json)
     n = 5000 if tier == 'quick' else 120000
     runner.run_generated(rep, gen(tier), check_case, n, runner.tier_workers(tier),
@@ -142,6 +145,7 @@ def run(tier, seed):
                 rep.add_failure('table versions: ' + clause, dict(detail, encoded_in_this_order=tag), case.to_json(),
                                 stage='table versions')
     std.run_boundary(rep, tier, check_case)
+    std.run_named(rep, gmsg.wide_field_cases(tier), check_case, 'wide fields', 'field_wider_than_53_bits')
     fuzz.run_structured(rep, 'checks.c02', _fuzz_gen, tier)
     return rep.finish()
 
